@@ -398,6 +398,25 @@ func (g *Gen) genContStmts() []Stmt {
 			r = append(r, s)
 		}
 	}
+	// a helper call placed in the continuing block - preferably a helper that nothing else calls, so that it is
+	// reachable only through the continuing block (reachability walks that skip Loop.Continuing lose it)
+	if g.on("call.in-continuing") && len(g.fx.callable) > 0 && g.R.Chance(1, 3) {
+		f := g.fx.callable[g.R.Intn(len(g.fx.callable))]
+		for _, h := range g.fx.callable {
+			if g.calledFns[h] == 0 {
+				f = h
+				break
+			}
+		}
+		if c := g.callOf(f, 1); c != nil {
+			g.feat("call.in-continuing")
+			if f.Ret == nil {
+				r = append(r, &CallS{C: c})
+			} else {
+				r = append(r, &Assign{LHS: nil, Op: "=", RHS: c})
+			}
+		}
+	}
 	return r
 }
 
